@@ -3,6 +3,7 @@ package main
 import (
 	"fmt"
 	"os"
+	"regexp"
 	"sort"
 	"strings"
 
@@ -96,7 +97,7 @@ func c23(x *ctx) {
 		}
 		return o
 	}
-	forms := []string{"mid-file", "last-line", "in-method", "bare"}
+	forms := []string{"mid-file", "last-line", "in-method", "bare", "bare-reassigned-later"}
 	mk := func(setup, recv string, required, allowed, forbid map[string]bool, feat string) {
 		for _, f := range forms {
 			var src string
@@ -107,6 +108,13 @@ func c23(x *ctx) {
 				row = strings.Count(setup, "\n") + 1
 			case "last-line":
 				src = setup + recv + ".\n"
+				row = strings.Count(setup, "\n") + 1
+			case "bare-reassigned-later":
+				// the receiver variable gets a value of another class on a later row: the cursor row's type counts
+				if !regexp.MustCompile(`^[a-z][a-z0-9_]*$`).MatchString(recv) {
+					continue
+				}
+				src = setup + recv + "\nzz_after = 1\n" + recv + " = :zq_other\n" + recv + ".to_s\n"
 				row = strings.Count(setup, "\n") + 1
 			case "bare":
 				// the form the editor plugin (and the goldens) use: the receiver alone on the row
